@@ -124,6 +124,7 @@ fn main() {
                 "C01" => checks::c01::run(&mut report, seed, cases),
                 "C09" => checks::c09::run(&mut report, seed, cases),
                 "C22" => checks::c22::run(&mut report, seed, cases),
+                "C27-export" => checks::c27::run(&mut report, seed, cases, &arg_val(&args, "--export").expect("--export")),
                 "C26-gen" => checks::c26::run(&mut report, seed, cases, &arg_val(&args, "--outdir").expect("--outdir")),
                 "C20" => checks::c20::run(&mut report, seed, cases),
                 "C25" => checks::c25::run(&mut report, seed, cases),
